@@ -846,7 +846,10 @@ def diag_robust(R, allm, rule):
                 safe = False
                 if isinstance(r, ast.Name):
                     vals = common.assigned_values(m.node, r.id)
-                    safe = bool(vals) and all(k == "expr" and isinstance(v, (ast.Call, ast.Constant, ast.BinOp, ast.JoinedStr)) for k, v in vals)
+                    # (a local bound to a tuple display whose length matches the directives is the tuple written in place)
+                    n_dir = len([x for x in __import__("re").findall(r"%(?:\([^)]*\))?[-#0 +]*\d*(?:\.\d+)?([a-zA-Z%])", node.left.value) if x != "%"])
+                    safe = bool(vals) and all(k == "expr" and (isinstance(v, (ast.Call, ast.Constant, ast.BinOp, ast.JoinedStr)) or
+                                                              (isinstance(v, ast.Tuple) and len(v.elts) == n_dir and not any(isinstance(e_, ast.Starred) for e_ in v.elts))) for k, v in vals)
                 n += 1
                 R.check(safe, rule, "%s:%%:%s" % (m.qualname, q.src(r)), R.site(m, node),
                         "the right operand of %% is a tuple or an already formatted string",
